@@ -1,6 +1,7 @@
 CONSTANTS
 Modes = {"unary", "stream"}
-Pre = {"none", "notready", "connclosed"}
+Pre = {"none", "notready", "connclosed", "badmd", "blocked"}
+Causes = {TRUE, FALSE}
 SrvFaults = {"refused", "unavail"}
 Finals = {"success", "srverr", "cancel_before", "cancel_after", "deadline"}
 MaxFaults = 2
